@@ -13,10 +13,14 @@ import (
 // generator runs inside NewExecutionEngine, the gRPC planner on the configured schema), so a directive argument written
 // `reason: null` reaches the accessor and the panic takes the process. Every call of a partial accessor has to be
 // dominated by a test of the kind of the same value that admits only kinds of the accessor's domain (an equality with one
-// of the four kinds, or a switch clause listing only such kinds).
+// of those kinds, or a switch clause listing only such kinds). The admitted kinds are Enum and String only: for Integer and
+// Float the accessor returns the digits without the sign.
 func partialValueAccessorsGuarded(r *fw.Run, rule string, pkgs []string, minSites int) {
 	p := r.Prog
-	domain := map[string]bool{"ValueKindEnum": true, "ValueKindString": true, "ValueKindInteger": true, "ValueKindFloat": true}
+	// the kinds for which the accessor returns the text of the value. For Integer and Float it does not panic, but it returns
+	// the digits without the sign (the sign is a separate flag of IntValue / FloatValue): -5 reads as "5". A test that admits
+	// a number kind therefore does not make the call right either (seeded change C17-2).
+	domain := map[string]bool{"ValueKindEnum": true, "ValueKindString": true}
 	n := 0
 	for _, pa := range pkgs {
 		for _, fi := range p.Funcs(pa) {
@@ -89,7 +93,7 @@ func partialValueAccessorsGuarded(r *fw.Run, rule string, pkgs []string, minSite
 					o := fw.RootObj(info, c.Args[0])
 					okGuard := o != nil && st.Must("kind-ok:"+o.Name())
 					r.Check(okGuard, rule, fi.Name()+"/partial-value-accessor-under-kind-test#"+itoa(ord), p.Pos(c.Pos()), "the partial accessor "+fw.Callee(info, c).Name()+" in "+fi.Name()+" is called only after the kind of its argument was tested",
-						"the accessor panics for Null, Boolean, Variable, List and Object values and the kind of the value is not tested on this path: a directive argument written as `null` (or any other non-text value) in an unvalidated schema document panics — inside NewExecutionEngine / planning, i.e. it takes the process")
+						"the accessor panics for Null, Boolean, Variable, List and Object values and drops the sign of Integer and Float values, and the kind of the value is not known to be String or Enum on this path: a directive argument written as `null` in an unvalidated schema document panics (inside NewExecutionEngine / planning, i.e. it takes the process), a negative number reads as its absolute value")
 				},
 			}
 			in.Run(nil)
